@@ -1821,6 +1821,63 @@ def forms_cases(ctx, r):
             one('chimera_anticluster', f'chimera_anticluster(1, 2, 2, subgraph=(sn, se), seed={seed})', dict(sn=sn, se=se), dict(sn='collection', se='collection'))
 
 
+QAM_BITS = {'16QAM': 4, '64QAM': 6, '256QAM': 8}       # log2 of the constellation size = bits per transmitted symbol
+
+
+def qam_cases(ctx, r, lines, checks):
+    """mimo('16QAM' | '64QAM' | '256QAM', y, F): log2(constellation) spin variables per transmitter; with the documented layout
+    (per amplitude bit: the real parts of all symbols, then the imaginary parts; lower precision first) the symbol of
+    transmitter i is sum_a 2^a (p_a[i] + i q_a[i]) and the energy is ||y - F v||^2"""
+    from dimod.generators.wireless import mimo
+    site = 'generators.mimo'
+    pre = HDR + 'from dimod.generators.wireless import mimo\n'
+    for rep in range(ctx.scale(8, 120)):
+        mod = r.choice(['16QAM', '16QAM', '64QAM', '256QAM'])
+        na = QAM_BITS[mod] // 2
+        nt = 2 if (mod == '16QAM' and r.random() < .5) else 1
+        nr = r.randint(1, 2)
+        z = lambda: F(r.randint(-4, 4), r.choice([1, 1, 2]))   # noqa: E731
+        Fr = [[z() for _ in range(nt)] for _ in range(nr)]; Fi = [[z() for _ in range(nt)] for _ in range(nr)]
+        yr = [z() for _ in range(nr)]; yi = [z() for _ in range(nr)]
+        if all(sum(Fr[k][i] * yi[k] - Fi[k][i] * yr[k] for k in range(nr)) == 0 for i in range(nt)) and \
+           all(sum(Fr[k][i] * Fi[k][j] - Fi[k][i] * Fr[k][j] for k in range(nr)) == 0 for i in range(nt) for j in range(nt)):
+            continue            # the data-dependent real form: known finding D65, covered by qpsk_cases
+        cplx = lambda a, b: complex(float(a), float(b))   # noqa: E731
+        call = f'mimo({mod!r}, np.array({[cplx(a, b) for a, b in zip(yr, yi)]!r}), np.array({[[cplx(a, b) for a, b in zip(ra, rb)] for ra, rb in zip(Fr, Fi)]!r}))'
+        with warnings.catch_warnings():
+            warnings.simplefilter('ignore')
+            b = eval(call, {'mimo': mimo, 'np': np})
+        ctx.tick(f'mimo:{mod}'); ctx.case(('qam', call), nontrivial=True, sample=dict(call=call))
+        nv = QAM_BITS[mod] * nt
+        src = (pre + f'b = {call}\nnt, na = {nt}, {na}\nyr, yi, Fr, Fi = {[str(v) for v in yr]!r}, {[str(v) for v in yi]!r}, {[[str(v) for v in row] for row in Fr]!r}, {[[str(v) for v in row] for row in Fi]!r}\n'
+               f'assert b.num_variables == {nv}, ("{mod}: {QAM_BITS[mod]} bits per transmitter", b.num_variables)\n'
+               'c = coef(b)\n'
+               'for s in itertools.product((-1, 1), repeat=b.num_variables):\n'
+               '    p = [sum(2**a * s[a * 2 * nt + i] for a in range(na)) for i in range(nt)]; q = [sum(2**a * s[a * 2 * nt + nt + i] for a in range(na)) for i in range(nt)]\n'
+               '    re = [F(yr[k]) - sum(F(Fr[k][i]) * p[i] - F(Fi[k][i]) * q[i] for i in range(nt)) for k in range(len(yr))]\n'
+               '    im = [F(yi[k]) - sum(F(Fi[k][i]) * p[i] + F(Fr[k][i]) * q[i] for i in range(nt)) for k in range(len(yr))]\n'
+               '    assert en(c, dict(enumerate(s))) == sum(a * a for a in re) + sum(a * a for a in im), s\n')
+        bad = False
+        c = coef(b)
+        if b.vartype is not dimod.SPIN or list(b.variables) != list(range(nv)):
+            bad = True
+            ctx.fail('property', site, f'{mod}: number of variables', f'{call}: {b.num_variables} variables for {nt} transmitter(s); a {mod} symbol carries {QAM_BITS[mod]} bits', repro=src)
+        for s_ in itertools.product((-1, 1), repeat=nv) if not bad else ():
+            p_ = [sum(2 ** a * s_[a * 2 * nt + i] for a in range(na)) for i in range(nt)]
+            q_ = [sum(2 ** a * s_[a * 2 * nt + nt + i] for a in range(na)) for i in range(nt)]
+            re = [yr[k] - sum(Fr[k][i] * p_[i] - Fi[k][i] * q_[i] for i in range(nt)) for k in range(nr)]
+            im = [yi[k] - sum(Fi[k][i] * p_[i] + Fr[k][i] * q_[i] for i in range(nt)) for k in range(nr)]
+            want = sum(a * a for a in re) + sum(a * a for a in im)
+            got = energy(c, dict(enumerate(s_)))
+            if got != want:
+                bad = True
+                ctx.fail('property', site, f'{mod}: energy vs ||y - F v||^2', f'{call}: at {s_} (symbols {list(zip(p_, q_))}) energy {got}, expected {want}', repro=src)
+                break
+        mt = lambda M: ';'.join(','.join(map(rat, row)) for row in M)   # noqa: E731
+        lines.append(f"qam {na} {nt} {','.join(map(rat, yr))} {','.join(map(rat, yi))} {mt(Fr)} {mt(Fi)}")
+        checks.append((site + ' vs Gen.mimoQam', mod, 'ok ' + canon_bqm(b), src, bad))
+
+
 def run(ctx):
     r = ctx.rng
     ctx.rule = ('every gate generator with random labels (ints, strings, nested tuples) / strengths, both vartypes, every row of the truth table x every auxiliary value; '
@@ -1845,6 +1902,7 @@ def run(ctx):
     mimo_cases(ctx, r, lines, checks)
     comp_cases(ctx, r, lines, checks)
     qpsk_cases(ctx, r, lines, checks)
+    qam_cases(ctx, r, lines, checks)
     forms_cases(ctx, r)
     ctx.notes.append('random generators: the NumPy generator is a contract (its draws are recorded and handed to the models as an explicit stream); placement of the draws, index maps, pair selection, capacities are modelled (Rnd.*) and proved; range / reproducibility over seeds stay validated; '
                      'multiplication circuit: "energy 0 (minimised over the internal wires) iff p = a*b, else >= 1" is proved for all n, m >= 2 (multiplication_circuit_zero_iff_product); the enumeration up to 3x3 stays as a test')
